@@ -20,7 +20,7 @@ func init() {
 			`R16.4 the per-file relay and aggregation goroutines leave their range loops only when the channel is closed and then always signal completion, and BeforeClose closes before it waits; ` +
 			`R16.6 'cancelled' is closed only inside those result cases; R16.5 every WoundsConsumer.Do in the module watches ctx.Done(), and the consumer installed for FailFast never returns nil from the cancellation case. ` +
 			`R16.7 every send on the bounded Wounds channel in Validate comes after the go statement of the consumer; R16.8 a function of package pwr that waits (plain receive, in its body or in a deferred literal) on a channel only a goroutine it started sends on or closes has, on every path to the wait, closed a channel that goroutine receives from or cancelled a context it watches - deferred calls are ordered last-in first-out, so a cancel deferred earlier does not count, and edges taken because that context is done are not followed. ` +
-			`R05.8 / R05.9 (shared) Healthy() is true only for progress markers and HasWounds is set by every non-healthy wound: a clean verdict needs both. R16.9 in ArchiveHealer.Do the single result of the healing goroutine is received at most once on any path: a literal that takes it leaves with a non-nil error on every path from that receive, its caller returns on that error before receiving again, and a receive in Do itself is followed by no other. R05.3/R05.5/R05.6 (shared) the deviation table: no error means every deviation test controlled a wound. NOT decided: deadlock freedom over all interleavings (model checking), goroutine leaks, that 'cancelled' is closed at most once.`,
+			`R05.8 / R05.9 (shared) Healthy() is true only for progress markers and HasWounds is set by every non-healthy wound: a clean verdict needs both. R16.9 in ArchiveHealer.Do the single result of the healing goroutine is received at most once on any path: a literal that takes it leaves with a non-nil error on every path from that receive, its caller returns on that error before receiving again, and a receive in Do itself is followed by no other. R05.3/R05.5/R05.6 (shared) the deviation table: no error means every deviation test controlled a wound. R05.10 (shared) wounds are merged only into a pending wound of their own kind (a FILE wound swallowed by a healthy run is a false 'valid'). NOT decided: deadlock freedom over all interleavings (model checking), goroutine leaks, that 'cancelled' is closed at most once.`,
 		Assumptions: []string{
 			"channel identity is by role (the argument bound to validate's result-channel parameter, the channel the consumer goroutine sends on), resolved through go/ssa value flow",
 			"external WoundsConsumer implementations are outside the module and not analysed",
@@ -41,6 +41,7 @@ func runC16(c *core.Ctx) {
 	ruleOneResultOneReceive(c, "R16.9", c.P.Fn("pwr", "ArchiveHealer.Do"))
 	ruleOnlyMarkersAreHealthy(c, "R05.8", woundKinds(c.P))
 	ruleHasWoundsCountsEveryWound(c, "R05.9")
+	ruleMergedWoundsShareAKind(c, "R05.10")
 	c.Rule("R05.3", "size mismatch after a successful copy controls a FILE wound, both directions (shared)")
 	c.Rule("R05.5", "classification table: each enumerated deviation test controls a wound emission (shared)")
 	c.Rule("R05.6", "no file is passed unseen (shared)")
